@@ -32,6 +32,26 @@ class VSegList(V):
     segs: list
 
 
+SeqT = z3.DeclareSort("SeqT")
+
+
+@dataclass
+class VAbsSeq(V):
+    """an abstract sequence given by a term (the result of a recursive call seen through its contract)"""
+    z: object
+
+
+class SegEntry:
+    """a non-singleton segment stored inside a list object (accumulator pattern `lst += ...` / append in a loop)"""
+
+    def __init__(self, seg):
+        self.seg = seg
+
+
+def heap_free(v):
+    return not isinstance(v, (VObj, E.VMap, VList)) and not (isinstance(v, VTuple) and not all(heap_free(x) for x in v.items))
+
+
 def b_range(eng, st, args, kw):
     vals = [eng.unbox_known(a, st) for a in args]
     if not all(isinstance(v, VInt) for v in vals) or len(vals) > 2:
@@ -118,7 +138,9 @@ class SeqEngine(E.Engine):
         if isinstance(it, VTuple):
             return [("one", x) for x in it.items]
         if isinstance(it, VList):
-            return [("one", x) for x in st.heap[it.addr].items]
+            return [x.seg if isinstance(x, SegEntry) else ("one", x) for x in st.heap[it.addr].items]
+        if isinstance(it, VAbsSeq):
+            return [("flat", it)]
         if isinstance(it, VSegList):
             return list(it.segs)
         if isinstance(it, VRange):
@@ -145,45 +167,80 @@ class SeqEngine(E.Engine):
                         else:
                             done.append((s2, sig, acc + prod))
                     continue
+                if seg[0] in ("flat", "cond"):
+                    raise Undecided(f"iteration over a {seg[0]} segment (elements of an abstract sequence) needs a contract")
                 _, lo, hi, i, item = seg
-                # uniform-body rule on the live state
-                heap_before = {a: (id(o), dict(getattr(o, "fields", {})) if hasattr(o, "fields") else None,
-                                   list(o.items) if isinstance(o, ListObj) else None, getattr(o, "arr", None))
-                               for a, o in s.heap.items()}
+                if isinstance(item, list):
+                    raise Undecided("iteration over a nested range body")
+                # uniform-body rule: the body is executed once for a fresh index lo <= i < hi
+                def snap(state):
+                    return {a: (dict(getattr(o, "fields", {})) if hasattr(o, "fields") else None,
+                                list(o.items) if isinstance(o, ListObj) else None, getattr(o, "arr", None))
+                            for a, o in state.heap.items()}
+                before = snap(s)
+                pre = s.fork()
                 n_pc, n_qpc = len(s.pc), len(s.qpc)
                 guard = z3.And(lo <= i, i < hi)
                 s.assume(lo <= i, i < hi)
                 results = body(s, item)
-                normal = [(s2, sig, prod) for s2, sig, prod in results if sig is None or sig == ("continue",)]
+                normal = []
                 for s2, sig, prod in results:
-                    if sig is not None and sig != ("continue",):
-                        if sig[0] == "raise":
-                            done.append((s2, sig, acc))
+                    if sig is None or sig == ("continue",):
+                        normal.append((s2, prod))
+                    elif sig[0] == "raise":
+                        done.append((s2, sig, acc))
+                    else:
+                        raise Undecided("return/break inside a loop with a symbolic range")
+                if not normal:
+                    continue
+                cases = []
+                for s2, prod in normal:
+                    after = snap(s2)
+                    grown = None
+                    for a, sn in before.items():
+                        now = after.get(a)
+                        if now == sn:
+                            continue
+                        # the only permitted heap effect: ONE list (an accumulator) grew at its end
+                        if sn[1] is not None and now is not None and now[1] is not None and now[1][:len(sn[1])] == sn[1] \
+                                and now[0] == sn[0] and grown is None:
+                            grown = (a, now[1][len(sn[1]):])
                         else:
-                            raise Undecided("return/break inside a loop with a symbolic range")
-                if len(normal) != 1:
-                    if not normal:
-                        continue
-                    raise Undecided("loop body over a symbolic range branches (needs an invariant)")
-                s2, _, prod = normal[0]
-                for a, snap in heap_before.items():
-                    o = s2.heap[a]
-                    now = (id(o), dict(getattr(o, "fields", {})) if hasattr(o, "fields") else None,
-                           list(o.items) if isinstance(o, ListObj) else None, getattr(o, "arr", None))
-                    if snap[1:] != now[1:]:
-                        raise Undecided("loop body over a symbolic range writes to the heap (needs an invariant)")
-                lifted = []
-                for p in prod:
-                    if p[0] != "one":
-                        raise Undecided("nested symbolic ranges")
-                    lifted.append(("range", lo, hi, i, p[1]))
-                if len(lifted) > 1:
-                    raise Undecided("several elements per iteration of a symbolic range")
-                # facts learnt inside the body hold for an index inside the range only: guard them (the range may be
-                # empty).  i is a fresh constant, so proving something for it under the guard proves it for every index.
-                s2.pc = s2.pc[:n_pc] + [z3.Implies(guard, f) for f in s2.pc[n_pc:] if not _mentions_only_bounds(f, i, lo, hi)]
-                s2.qpc = s2.qpc[:n_qpc] + [z3.Implies(guard, f) for f in s2.qpc[n_qpc:]]
-                nxt.append((s2, acc + lifted))
+                            raise Undecided("loop body over a symbolic range writes to the heap (needs an invariant)")
+                    extra = []
+                    if grown is not None:
+                        for x in grown[1]:
+                            extra.append(x.seg if isinstance(x, SegEntry) else ("one", x))
+                    cases.append((s2, list(prod) + extra, grown[0] if grown else None))
+                targets = {c[2] for c in cases if c[2] is not None}
+                if len(targets) > 1:
+                    raise Undecided("different accumulators on different paths")
+                target = targets.pop() if targets else None
+                if len(cases) == 1:
+                    s2, prods, _ = cases[0]
+                    lifted = [("range", lo, hi, i, prods[0][1] if len(prods) == 1 and prods[0][0] == "one" else prods)] if prods else []
+                    s2.pc = s2.pc[:n_pc] + [z3.Implies(guard, f) for f in s2.pc[n_pc:] if not _mentions_only_bounds(f, i, lo, hi)]
+                    s2.qpc = s2.qpc[:n_qpc] + [z3.Implies(guard, f) for f in s2.qpc[n_qpc:]]
+                    post = s2
+                else:
+                    # branching body: the iteration's contribution is a conditional sequence; the state after the loop is
+                    # the state before it plus the guarded case facts (objects allocated inside a branch do not survive)
+                    conds = []
+                    for s2, prods, _ in cases:
+                        for sg in prods:
+                            if not _seg_heap_free(sg):
+                                raise Undecided("a branching loop body produces heap objects")
+                        delta = [f for f in s2.pc[n_pc:] if not _mentions_only_bounds(f, i, lo, hi)] + s2.qpc[n_qpc:]
+                        conds.append((z3.And(*delta) if delta else z3.BoolVal(True), prods))
+                    lifted = [("range", lo, hi, i, [("cond", conds)])]
+                    post = pre
+                    post.assume(z3.Implies(guard, z3.Or(*[c for c, _ in conds])))
+                if target is not None:
+                    lst = post.heap[target]
+                    lst.items = list(before[target][1]) + [SegEntry(x) for x in lifted]
+                    nxt.append((post, acc))
+                else:
+                    nxt.append((post, acc + lifted))
             live = nxt
         return [(s, None, acc) for s, acc in live] + done
 
@@ -283,6 +340,26 @@ class SeqEngine(E.Engine):
         return out
 
     # -- list operations on sequences ------------------------------------------------------------------
+    def st_AugAssign(self, stmt, st):
+        if isinstance(stmt.op, ast.Add) and isinstance(stmt.target, ast.Name):
+            cur = st.env.get(stmt.target.id)
+            if isinstance(cur, VList):
+                out = []
+                for s, b in self.ev(stmt.value, st):
+                    if isinstance(b, VExc):
+                        out.append((s, ("raise", b)))
+                        continue
+                    b = self.unbox_known(b, s)
+                    segs = self.segments_of(b, s)
+                    if segs is None:
+                        raise Undecided("list += non-sequence")
+                    lst = s.heap[cur.addr]
+                    for sg in segs:
+                        lst.items.append(sg[1] if sg[0] == "one" else SegEntry(sg))
+                    out.append((s, None))
+                return out
+        return super().st_AugAssign(stmt, st)
+
     def binop(self, op, a, b, st):
         a2, b2 = self.unbox_known(a, st), self.unbox_known(b, st)
         if isinstance(op, ast.Add) and (isinstance(a2, VSegList) or isinstance(b2, VSegList)):
@@ -297,27 +374,48 @@ class SeqEngine(E.Engine):
         return super().binop(op, a, b, st)
 
 
+def _seg_heap_free(sg):
+    if sg[0] == "one":
+        return heap_free(sg[1])
+    if sg[0] == "range":
+        body = sg[4]
+        return all(_seg_heap_free(x) for x in body) if isinstance(body, list) else heap_free(body)
+    if sg[0] == "cond":
+        return all(_seg_heap_free(x) for _, seq in sg[1] for x in seq)
+    return True
+
+
 def _mentions_only_bounds(f, i, lo, hi):
     return z3.eq(f, lo <= i) or z3.eq(f, i < hi)
 
 
 def segs_equal(eng, sa, sb, st, elem_eq):
     """Formula: two segment lists denote the same sequence, segment by segment (sound, not complete).
-    elem_eq(x, y) -> z3 Bool compares two element values."""
+    elem_eq(x, y) -> z3 Bool compares two element values; abstract (flat) sequences are compared as terms."""
     if len(sa) != len(sb):
         return z3.BoolVal(False)
     conj = []
     for x, y in zip(sa, sb):
+        if x[0] == "cond" or y[0] == "cond":
+            xs = x[1] if x[0] == "cond" else [(z3.BoolVal(True), [x])]
+            ys = y[1] if y[0] == "cond" else [(z3.BoolVal(True), [y])]
+            for c1, s1 in xs:
+                for c2, s2 in ys:
+                    conj.append(z3.Implies(z3.And(c1, c2), segs_equal(eng, s1, s2, st, elem_eq)))
+            continue
         if x[0] != y[0]:
             return z3.BoolVal(False)
         if x[0] == "one":
             conj.append(elem_eq(x[1], y[1]))
+        elif x[0] == "flat":
+            conj.append(x[1].z == y[1].z)
         else:
             _, lo1, hi1, i1, v1 = x
             _, lo2, hi2, i2, v2 = y
-            # same bounds (or both empty) and equal elements for every index in range
-            body = elem_eq(v1, v2)
-            body = z3.substitute(body, (i2, i1))
+            b1 = v1 if isinstance(v1, list) else [("one", v1)]
+            b2 = v2 if isinstance(v2, list) else [("one", v2)]
+            body = segs_equal(eng, b1, b2, st, elem_eq)
+            body = z3.substitute(body, (i2, i1)) if not z3.eq(i1, i2) else body
             # i1 is the fresh index constant of the implementation's segment: proving the element equality for it under
             # the range guard proves it for every index (generalisation), so no quantifier is needed
             conj.append(z3.Or(z3.And(hi1 <= lo1, hi2 <= lo2),
